@@ -24,27 +24,8 @@ from django_evolution.signature import (AppSignature, FieldSignature, ModelSigna
 evolve_mod = importlib.import_module('django_evolution.management.commands.evolve')
 
 
-class _FakeDiff(object):
-    def __init__(self, empty_ignoring_apps, empty_with_apps):
-        self.e = empty_ignoring_apps
-        self.ea = empty_with_apps
-
-    def is_empty(self, ignore_apps=True):
-        return self.e if ignore_apps else self.ea
-
-    def __str__(self):
-        return 'diff'
-
-
-def h_gate(can_sim: bool, diff_empty: bool, diff_empty_apps: bool, required: bool,
-           execute: bool, purge: bool, hint: bool, sql: bool, evolve_raises: bool,
-           verbosity: int) -> bool:
-    """
-    pre: 0 <= verbosity <= 3
-    pre: diff_empty or not diff_empty_apps
-    pre: not hx.excluded(can_sim, diff_empty, diff_empty_apps, required, execute, purge, hint, sql, evolve_raises, verbosity)
-    post: _
-    """
+def _run_gate(diff_obj, can_sim, required, execute, purge, hint, sql, evolve_raises, verbosity):
+    """The real evolve command with a stub Evolver. -> (calls, raised)"""
     calls = []
 
     class FakeEvolver(object):
@@ -65,7 +46,7 @@ def h_gate(can_sim: bool, diff_empty: bool, diff_empty_apps: bool, required: boo
             return can_sim
 
         def diff_evolutions(self):
-            return _FakeDiff(diff_empty, diff_empty_apps)
+            return diff_obj
 
         def get_evolution_required(self):
             return required
@@ -91,7 +72,10 @@ def h_gate(can_sim: bool, diff_empty: bool, diff_empty_apps: bool, required: boo
             raised = True
     finally:
         evolve_mod.Evolver = old
-    residual_empty = diff_empty_apps if purge else diff_empty
+    return calls, raised
+
+
+def _gate_verdict(calls, raised, residual_empty, can_sim, required, execute, purge, evolve_raises):
     ok = True
     if 'evolve' in calls:
         # executed => asked to, needed, and the simulated result is exactly the target
@@ -105,7 +89,73 @@ def h_gate(can_sim: bool, diff_empty: bool, diff_empty_apps: bool, required: boo
     if evolve_raises and 'evolve' in calls:
         ok = ok and raised                     # a failing run is reported as a command error
     ok = ok and (('queue_purge' in calls) == purge)
-    return hx.verdict(ok, True)
+    return ok
+
+
+def h_gate(can_sim: bool, diff_empty: bool, diff_empty_apps: bool, required: bool,
+           execute: bool, purge: bool, hint: bool, sql: bool, evolve_raises: bool,
+           verbosity: int) -> bool:
+    """
+    pre: 0 <= verbosity <= 3
+    pre: diff_empty or not diff_empty_apps
+    pre: not hx.excluded(can_sim, diff_empty, diff_empty_apps, required, execute, purge, hint, sql, evolve_raises, verbosity)
+    post: _
+    """
+    # a real Diff object with the requested emptiness: nothing left / only a removed app left /
+    # a field difference left (so the gate may read a Diff any way it likes)
+    kind = 0 if diff_empty_apps else (6 if diff_empty else 1)
+    sim, target = _residual(kind)
+    diff_obj = Diff(sim, target)
+    if not (bool(diff_obj.is_empty(True)) == diff_empty and bool(diff_obj.is_empty(False)) == diff_empty_apps):
+        raise AssertionError('harness: residual kind does not give the requested Diff')
+    calls, raised = _run_gate(diff_obj, can_sim, required, execute,
+                              purge, hint, sql, evolve_raises, verbosity)
+    residual_empty = diff_empty_apps if purge else diff_empty
+    return hx.verdict(_gate_verdict(calls, raised, residual_empty, can_sim, required, execute,
+                                    purge, evolve_raises), True)
+
+
+def _residual(kind):
+    """(simulated signature, target signature) whose difference is of one kind.
+    0 none  1 field attribute differs  2 field left over in the simulated signature
+    3 field missing from the simulated signature  4 Meta (unique_together) differs
+    5 a model left over in the simulated signature (e.g. a dropped DeleteModel)
+    6 a whole app left over in the simulated signature (only matters with --purge)
+    7 kinds 5 and 6 together  8 kinds 1 and 6 together"""
+    sim, target = _base(), _base()
+    m = sim.get_app_sig('app').get_model_sig('M')
+    if kind in (1, 8):
+        m.get_field_sig('a').field_attrs['max_length'] = 21
+    if kind == 2:
+        m.add_field_sig(FieldSignature('extra', models.IntegerField, {'null': True}))
+    if kind == 3:
+        m.remove_field_sig('b')
+    if kind == 4:
+        m.unique_together = [('a', 'b')]
+    if kind in (5, 7):
+        target.get_app_sig('app').remove_model_sig('N')
+    if kind in (6, 7, 8):
+        old = AppSignature(app_id='oldapp')
+        old.add_model_sig(ModelSignature(model_name='O', table_name='oldapp_o', pk_column='id'))
+        sim.add_app_sig(old)
+    return sim, target
+
+
+def h_gate_real_diff(kind: int, required: bool, execute: bool, purge: bool, hint: bool,
+                     sql: bool) -> bool:
+    """The same gate with a real Diff(simulated, target) whose residual difference is of a
+    symbolic kind.
+
+    pre: 0 <= kind <= 8
+    pre: not hx.excluded(kind, required, execute, purge, hint, sql)
+    post: _
+    """
+    sim, target = _residual(hx.realize(kind))
+    diff_obj = Diff(sim, target)
+    calls, raised = _run_gate(diff_obj, True, required, execute, purge, hint, sql, False, 1)
+    residual_empty = kind == 0 or (kind == 6 and not purge)
+    return hx.verdict(_gate_verdict(calls, raised, residual_empty, True, required, execute,
+                                    purge, False), kind != 0)
 
 
 # ---------------------------------------------------------------------------------------
